@@ -147,6 +147,18 @@ Proof.
   exists s. auto.
 Qed.
 
+(* the context in which [denote] reads exclusion sequences, [bounds], is the
+   first and last point of the clipped progression itself *)
+Theorem c16_bounds_are_extremes : forall f cs ce sh,
+  wf_form f -> (f_fmt f = 1 -> f_reps f = Some 1) ->
+  shape_of f cs ce = Some sh -> sane sh cs ce ->
+  let lo := fst (bounds sh cs ce) in
+  let hi := snd (bounds sh cs ce) in
+  (forall p, denote0 f cs ce p -> lo <= p /\ forall e, hi = Some e -> p <= e) /\
+  ((forall e, hi = Some e -> lo <= e) ->
+   denote0 f cs ce lo /\ forall e, hi = Some e -> denote0 f cs ce e).
+Proof. exact bounds_extremes. Qed.
+
 (* is_valid iff member *)
 Theorem c16_valid_iff : forall f items cs ce sh s,
   sane_input f items cs ce sh -> init f items cs ce = Ok s ->
